@@ -641,13 +641,23 @@ def check_gsd(run, pkg, fname, dcd):
     f = ("sym", "f_gsd" if dcd else "f")
     ctor = pkg.cls("reader.reader_utils.SingleSnapshot").qual
     cs = calls(it, ctor)
-    if len(cs) != 1 or len(cs[0].loops) != 1:
-        raise AnalysisError(f"{fq}: expected one SingleSnapshot construction in the frame loop")
+    in_comp = cs[0].data.get("in_comp") if len(cs) == 1 else None
+    if len(cs) != 1 or not ((len(cs[0].loops) == 1 and not in_comp) or (not cs[0].loops and in_comp and len(in_comp) == 1)):
+        raise AnalysisError(f"{fq}: expected one SingleSnapshot construction per frame (in the frame loop or a comprehension over the frames)")
     ce = cs[0]
-    L = it.loops[ce.loops[0]]
-    fr = L.target
-    okl = eqv(L.iter, f)
-    run.ob("R-LOOPDOM", fq, "frames", okl, "every frame object of the trajectory is converted, in order", show(L.iter)[:40], witness=None if okl else "frames skipped", loc=fi.loc(L.node), sound=True)
+    enum_index = None
+    if in_comp:
+        fr, frames_iter = in_comp[0]
+        lnode = ce.node
+    else:
+        L = it.loops[ce.loops[0]]
+        fr, frames_iter, lnode = L.target, L.iter, L.node
+    if frames_iter is not None and frames_iter[0] == "call" and frames_iter[1] == "builtins.enumerate" and len(frames_iter[2]) == 1:
+        # for i, frame in enumerate(f): the frame object is component 1 of the target, the counter component 0
+        frames_iter = frames_iter[2][0]
+        enum_index, fr = ("elem", fr, 0), ("elem", fr, 1)
+    okl = eqv(frames_iter, f)
+    run.ob("R-LOOPDOM", fq, "frames", okl, "every frame object of the trajectory is converted, in order", show(frames_iter)[:40], witness=None if okl else "frames skipped", loc=fi.loc(lnode), sound=True)
     kws = dict(ce.data["call"][3])
     nd = ("sym", "ndim")
     cut = ("slice", NONE, nd, NONE)
@@ -692,6 +702,16 @@ def check_gsd(run, pkg, fname, dcd):
     attr_stores = [e for e in stores(it) if e.data["target"][0] == "attr" and e.data["target"][2] == "positions"]
     run.ob("R-FROZEN", fq, "no-field-store", not attr_stores, "positions are not assigned to a field of a (frozen) SingleSnapshot", f"{len(attr_stores)} attribute stores",
            witness=None if not attr_stores else "FrozenInstanceError for every GSD+DCD pair", loc=loc_of(it, attr_stores[0]) if attr_stores else loc, sound=True)
+    direct = kws.get("positions")
+    if direct is not None and direct != NONE and not lst_stores and enum_index is not None:
+        # the DCD positions are handed to the constructor frame by frame: for i, frame in enumerate(f_gsd): ... positions[i] ...
+        dstrip = strip_phi_none(direct)
+        okdir = eqv(dstrip, ("sub", ("sub", dpos, enum_index), ("tuple", (FULL, cut))))
+        if okdir is None and dstrip == ("sub", dpos, enum_index):
+            okdir = False
+        run.ob("R-IDX", fq, "dcd:install", okdir, "frame i is built with DCD positions[i] cut to the first ndim columns", show(direct)[:100],
+               witness=None if okdir else "ndim = 2: the frame carries the (N, 3) DCD array next to a 2 x 2 cell matrix - positions are not cut to the dimension", loc=loc_of(it, ce), sound=True)
+        return
     if len(lst_stores) != 1:
         # comprehension form: [replace(s, positions=p[:, :ndim]) for s, p in zip(snapshots, positions)]
         okz = None
@@ -857,3 +877,15 @@ def check_log(run, pkg):
     ret = it.returns[0].data["value"] if it.returns else None
     okr = len(app) == 1 and ret is not None and ret[0] == "appended" and ret[2] == rc[0].data["result"]
     run.ob("R-LOOPDOM", fq, "return", True if okr else None, "the list of all section tables is returned, in order", show(ret)[:60] if ret else "?", witness=None if okr else "sections dropped", loc=loc)
+
+
+def strip_phi_none(t):
+    """`x if x is not None else y` with a definitely given x (the caller passes it): the value is x"""
+    while t[0] == "phi" and t[1][0] == "cmp" and t[1][1] in ("is", "is not") and NONE in (t[1][2], t[1][3]):
+        other = t[1][3] if t[1][2] == NONE else t[1][2]
+        given = t[3] if t[1][1] == "is" else t[2]
+        if other == given or other != NONE:
+            t = given
+        else:
+            break
+    return t
